@@ -22,6 +22,8 @@ CLAIMED = {
          "Covers every sync.Mutex/RWMutex operation of the ingest, metadata and query packages (all packages in the thorough tier) on all control-flow paths: released on every exit, never released unheld, never re-acquired; the class-level held->acquired relation is acyclic; every access of the shared segment tables happens under the table's lock in the accessor or all callers, and insertion into the open-store table is re-checked under the write lock; a segment is made visible as rotated before it leaves the unrotated table and both snapshots are read unrotated-first. Races on unguarded fields, channel/wait-group liveness and equality with a sequential execution are not decided."),
  "C17": ("§3 C17", "static analysis: path-based PAIR of query start/delete keyed by the qid's phi web with branch correlation, lock dataflow (PAIR/LOCKORDER) on the query tables, held-lock check at blocking channel sends, dominance-based ASSERT on the PromQL front end, producer/consumer TABLE of query states",
          "For every function that starts a query the check shows that no return is reachable from the start's success edge without DeleteQuery for the same qid variable (direct, deferred or delegated to a goroutine that deletes on every loop exit); the query-table locks are released on all exits and acquired in an acyclic order; no blocking channel send happens while the global running-queries lock may be held; PromQL AST type assertions are checked; every query state that is sent has a handler in the coordinator loop. Parser termination, timing, admission arithmetic and other panic sources are not decided."),
+ "C19": ("§3 C19", "static analysis: whole-program forward taint (interprocedural, field-based with deep marks for decode targets, per-result return taint, context-sensitive inlining of pure string helpers) from request accessors to file-system sinks and storage path builders, with dominance-checked sanitisers (filepath.Base, membership lookups, validators, validate-by-callee summaries)",
+         "Every string/byte value obtainable from a request (fasthttp accessors, multipart file names, websocket reads and everything decoded from them) is followed through calls, fields, containers and closures of the whole repository; the check shows that none reaches the path operand of an os/ioutil file operation or the name parameter of a storage path builder without a sanitiser whose accepting edge dominates the use, and that percent-decoded router parameters are treated as arbitrary bytes. This covers every handler and every sink at once, including flows through shared helpers that no test exercises. Not decided: flows through map keys in long-lived state, the generated parsers' interface stacks, the Kibana-compat store, symlinks."),
 }
 
 NOT_APPLICABLE = {
